@@ -25,6 +25,18 @@ def demo(wt, mdir, tag):
     rc, out = sh(["g++", "-std=c++17", "-O1", "-w", "-I", "src", "-I", "include", "-I", "include/teakra/impl",
                   os.path.join(mdir, "demo.cpp")] + srcs + ["-pthread", "-o", exe], cwd=wt)
     if rc != 0:
+        # the demonstration may stub part of the project itself: retry with the source list its author recorded
+        import re
+        try:
+            meta = json.load(open(os.path.join(mdir, "meta.json")))
+        except Exception:      # noqa: BLE001
+            meta = {}
+        cmdtext = " ".join(str(v) for k, v in meta.items() if "build" in k or "compile" in k) + open(os.path.join(mdir, "demo.cpp")).read()[:3000]
+        listed = sorted(set(re.findall(r"src/\w+\.cpp", cmdtext)))
+        if listed:
+            rc, out = sh(["g++", "-std=c++17", "-O1", "-w", "-I", "src", "-I", "include", "-I", "include/teakra/impl",
+                          os.path.join(mdir, "demo.cpp")] + listed + ["-pthread", "-o", exe], cwd=wt)
+    if rc != 0:
         return None, "demo does not compile: " + out[-1500:]
     rc, out = sh([exe], cwd=wt, timeout=600)
     os.remove(exe)
